@@ -445,7 +445,7 @@ def cases(rng, tier):
     out += _find_cases(rng, 'quick' if tier == 'quick' else 'thorough')
     if tier != 'search':
         out += _currank_cases(rng, 2 if tier == 'quick' else 20)
-    nrand = dict(quick=10000, thorough=200000, search=20000)[tier]
+    nrand = dict(quick=12000, thorough=200000, search=20000)[tier]
     for _ in range(nrand):
         r = rng.random()
         dtype = rng.choice(DTYPES)
@@ -454,27 +454,27 @@ def cases(rng, tier):
         shape = list(gen.small_shape(rng, maxlen=7, bias=(1, 2, 3, 4, 5)))
         n = int(np.prod(shape))
         isf = np.dtype(dtype).kind == 'f'
-        if r < 0.35:
+        if r < 0.30:
             bshape, bc = _bc(rng, shape)
             n2 = sum(bc)
             out.append(dict(kind='rank', dtype=dtype, shape=shape, data=_data(rng, n, dtype), bshape=bshape, bc=bc,
                             rank=rng.choice([0, n2 - 1, n2 // 2, rng.randrange(n2)]), mode=mode, layout=layout,
                             blayout=rng.choice(['C', 'C', 'F', 'strided']), scale=rng.choice([1, 4]) if isf else 1))
-        elif r < 0.50:
+        elif r < 0.42:
             bshape, bc = _bc(rng, shape)
             c = dict(kind='median', dtype=dtype, shape=shape, data=_data(rng, n, dtype), bshape=bshape, bc=bc, mode=mode,
                      layout=layout, scale=rng.choice([1, 4]) if isf else 1)
             if rng.random() < 0.3:
                 c.update(default_bc=True, bshape=[3] * len(shape), bc=[1] * (3 ** len(shape)))
             out.append(c)
-        elif r < 0.70:
+        elif r < 0.55:
             bshape, bc = _bc(rng, shape)
             data = _data(rng, n, dtype, small=rng.random() < 0.7)
             if dtype in ('int64', 'uint64'):
                 data = [max(-2 ** 40, min(2 ** 40, v)) for v in data]
             out.append(dict(kind='mean', dtype=dtype, shape=shape, data=data, bshape=bshape, bc=bc,
                             mode=mode if rng.random() < 0.7 else 'ignore', layout=layout))
-        elif r < 0.78:
+        elif r < 0.62:
             # template_match on float images with arbitrary dyadic values K / 2^s (both signs, fractions, magnitudes up to
             # the significand): every operation of the kernel rounds; bit for bit against the generic kernel run by the
             # driver in binary64 / binary32, and against the exact SSD within the error bound of the summation
@@ -493,7 +493,7 @@ def cases(rng, tier):
             out.append(dict(kind='tmf', dtype=fdt, shape=shape, data=[kv() for _ in range(n)], bshape=tshape,
                             bc=[kv() for _ in range(nt)], scale=2 ** sexp, mode=mode, layout=layout,
                             blayout=rng.choice(['C', 'C', 'F', 'strided']), values=values))
-        elif r < 0.84:
+        elif r < 0.68:
             # mean_filter on float images with arbitrary dyadic values of both signs (cancellation): the double accumulation
             # in scan order, bit for bit against the generic kernel; against the exact mean within the summation bound
             bshape, bc = _bc(rng, shape)
@@ -506,13 +506,13 @@ def cases(rng, tier):
                 return rng.randint(-mag, mag)
             out.append(dict(kind='meanf', dtype=fdt, shape=shape, data=[kv() for _ in range(n)], bshape=bshape, bc=bc,
                             scale=2 ** sexp, mode=mode if rng.random() < 0.7 else 'ignore', layout=layout, values=values))
-        elif r < 0.87:
+        elif r < 0.71:
             rows, cols = rng.randint(1, 9), rng.randint(1, 9)
             dens = rng.choice([0.3, 0.5, 0.5, 0.7, 1.0])
             out.append(dict(kind='majority', dtype='bool', shape=[rows, cols],
                             data=[int(rng.random() < dens) for _ in range(rows * cols)], n=rng.randint(2, 7),
                             bshape=[1, 1], bc=[0], layout=layout))
-        elif r < 0.95:
+        elif r < 0.90:
             nd = len(shape)
             q = rng.random()
             tshape = ([rng.choice([1, 2, 3, 4]) for _ in range(nd)] if q < 0.7 else [s + rng.choice([0, 1, 3]) for s in shape])
